@@ -105,7 +105,7 @@ func (sv *service) serve(ctx context.Context, shape string, ss grpc.ServerStream
 		select {
 		case st := <-a.cmds:
 			if st.Op == "ret" {
-				s.opStart(a, st, tr.E{"code": st.Code, "msg": st.Msg, "det": StatusDet(st.Det), "n": st.N})
+				s.opStart(a, st, tr.E{"code": st.Code, "msg": st.Msg, "det": StatusDet(st.Det), "n": st.N, "size": WireSize(max(st.N, 0))})
 				err := mkStatus(st.Code, st.Msg, st.Det)
 				var resp any
 				if shape == "unary" && st.N >= 0 {
